@@ -345,6 +345,10 @@ class GroupedList(list):
             group_member in self.content[group_leader]
         ), f" - [GroupedList] {group_member} is not in {group_leader}"
 
+        # nothing to do when the leader is kept
+        if is_equal(group_member, group_leader):
+            return
+
         # replacing in the list
         group_idx = self.index(group_leader)
         self[group_idx] = group_member
